@@ -10,6 +10,18 @@ import struct
 import sys
 
 import imath
+try:
+    import vi64          # harness/py/i64ext.cpp: FixedArray<int64_t> registered through PyImath's public C++ API
+except ImportError:
+    vi64 = None
+
+
+def lookup(name):
+    if hasattr(imath, name):
+        return getattr(imath, name)
+    if vi64 is not None and hasattr(vi64, name):
+        return getattr(vi64, name)
+    return None
 
 NONE = 99
 out = sys.stdout
@@ -31,14 +43,14 @@ def ival(x):
 
 
 # ---- buffer protocol -------------------------------------------------------------------------------
-BUF_CLASSES = ["IntArray", "FloatArray", "DoubleArray", "ShortArray", "UnsignedCharArray",
+BUF_CLASSES = ["Int64Array", "IntArray", "FloatArray", "DoubleArray", "ShortArray", "UnsignedCharArray",
                "V2iArray", "V2fArray", "V2dArray", "V3iArray", "V3fArray", "V3dArray", "V4iArray", "V4fArray", "V4dArray",
                "V2sArray", "V3sArray", "V4sArray", "V2i64Array", "V3i64Array", "V4i64Array"]
 
 
 def elem(cname, v):
     base = cname[:-5]
-    if cname in ("IntArray", "ShortArray", "UnsignedCharArray"):
+    if cname in ("IntArray", "ShortArray", "UnsignedCharArray", "Int64Array"):
         return v
     if cname in ("FloatArray", "DoubleArray"):
         return float(v)
@@ -49,9 +61,9 @@ def elem(cname, v):
 
 def mviews():
     for cname in BUF_CLASSES:
-        if not hasattr(imath, cname):
+        cls = lookup(cname)
+        if cls is None:
             continue
-        cls = getattr(imath, cname)
         try:
             memoryview(cls(2))
         except TypeError:
@@ -87,7 +99,7 @@ def mviews():
                 del junk
 
 
-FROM = {"IntArrayFromBuffer": ("i", 1), "FloatArrayFromBuffer": ("f", 1), "DoubleArrayFromBuffer": ("d", 1),
+FROM = {"Int64ArrayFromBuffer": ("l", 1), "IntArrayFromBuffer": ("i", 1), "FloatArrayFromBuffer": ("f", 1), "DoubleArrayFromBuffer": ("d", 1),
         "V2iArrayFromBuffer": ("i", 2), "V2fArrayFromBuffer": ("f", 2), "V2dArrayFromBuffer": ("d", 2),
         "V3iArrayFromBuffer": ("i", 3), "V3fArrayFromBuffer": ("f", 3), "V3dArrayFromBuffer": ("d", 3),
         "V4iArrayFromBuffer": ("i", 4), "V4fArrayFromBuffer": ("f", 4), "V4dArrayFromBuffer": ("d", 4)}
@@ -95,9 +107,9 @@ FROM = {"IntArrayFromBuffer": ("i", 1), "FloatArrayFromBuffer": ("f", 1), "Doubl
 
 def frombufs():
     for fn in sorted(FROM):
-        if not hasattr(imath, fn):
+        f = lookup(fn)
+        if f is None:
             continue
-        f = getattr(imath, fn)
         for code in ("b", "B", "h", "H", "i", "I", "l", "q", "f", "d"):
             for (rows, cols) in ((0, 1), (3, 1), (2, 2), (2, 3), (2, 4), (1, 3), (4, 1)):
                 n = rows * cols
